@@ -107,7 +107,7 @@ def fold_append(ctx, rep, R):
     BranchNS = Obj('Branch', Events=Obj('Events', AFTER_ADD='AFTER_ADD', AFTER_CLOSE='AFTER_CLOSE'))
     g['Branch'] = BranchNS
     it = Interp(g, where='proof/common.py Branch.append')
-    U = range(4)
+    U = range(5 if rep.tier == 'thorough' else 4)       # thorough: a 5-element universe of constants/worlds
     n = 0
     problems = collections.OrderedDict()
 
